@@ -51,10 +51,45 @@ theorem syn_payload_delivered (cfg : Cfg) (p : Pkt) (d : Bytes) (hi : cfg.ignC =
     rw [hds]; rfl
   have hb : (Stream.ofPacket cfg p).client.packetBelongs p = true := by
     simp [Stream.ofPacket, Flow.configure, Flow.init, Flow.packetBelongs]
+  have hno : isOoo p d (Tracker.init (wrap32 (p.seq + 1))).seq = false := by
+    unfold isOoo
+    simp only [hds, Tracker.init, a1, seqCompare_self]
+    decide
+  have hpp := processPacket_some' (Stream.ofPacket cfg p).client p d hcl.1 hp
+  rw [hcl.2, hno, afterOoo_false, hcl.2] at hpp
   unfold Stream.route
-  simp only [hb, if_true]
-  simp only [Flow.processPacket, hcl.1, hcl.2, hp, hds, Tracker.init, Bool.false_eq_true, if_false, a1, seqCompare_self]
+  simp only [hb, if_true, hpp, hds, Tracker.init, a1, seqCompare_self]
   simp [i1, i2, i3, i4, clearPayload]
   cases h : (Stream.ofPacket cfg p).acl <;> simp [i3, i4]
+
+/-- recovery mode: an out-of-order segment that lies ahead of the expected sequence number, inside the recovery window, on a
+    flow with nothing buffered: the handler advances the sequence number to the segment (skipping the hole) and the segment
+    is delivered at once; the handler stays installed while the window's end lies beyond the segment -/
+theorem recovery_skips_hole (f : Flow) (p : Pkt) (d : Bytes) (e : Nat)
+    (hi : (f.pre p).ignoreData = false) (hp : p.payload = some d) (hr : (f.pre p).recEnd = some e)
+    (hb : (f.pre p).tr.buf = []) (hahead : seqCompare p.dataSeq (f.pre p).tr.seq > 0)
+    (hwin : p.dataSeq > (f.pre p).tr.seq ∧ p.dataSeq ≤ e) (h0 : 0 < d.length) (hn : d.length < 2147483648) :
+    (f.processPacket p).2.1 = some (p.dataSeq, d) ∧ (f.processPacket p).2.2 = true ∧
+    (f.processPacket p).1.tr.payload = (f.pre p).tr.payload ++ d ∧
+    (f.processPacket p).1.tr.seq = wrap32 (p.dataSeq + d.length) ∧ (f.processPacket p).1.tr.buf = [] ∧
+    (f.processPacket p).1.recEnd = (if e > p.dataSeq then some e else none) := by
+  have hoo : isOoo p d (f.pre p).tr.seq = true := by unfold isOoo; simp [hahead]
+  have hlt : p.dataSeq < 4294967296 := by unfold Pkt.dataSeq wrap32; omega
+  have hadv : advanceSequence (f.pre p).tr p.dataSeq =
+      { seq := p.dataSeq, buf := [], total := (f.pre p).tr.total, payload := (f.pre p).tr.payload } := by
+    unfold advanceSequence
+    have : ¬ seqCompare p.dataSeq (f.pre p).tr.seq ≤ 0 := by omega
+    simp [this, hb]
+  obtain ⟨i1, i2, i3, i4⟩ := processPayload_in_order
+    { seq := p.dataSeq, buf := [], total := (f.pre p).tr.total, payload := (f.pre p).tr.payload } d rfl hlt h0 hn
+  rw [processPacket_some' f p d hi hp, hoo]
+  have haf : (f.pre p).afterOoo p true = (f.pre p).recover p.dataSeq e := by
+    unfold Flow.afterOoo; rw [hr]
+  rw [haf]
+  unfold Flow.recover
+  simp only [hwin, and_self, if_true, hadv]
+  refine ⟨?_, i1, i2, i3, i4, trivial⟩
+  have : seqCompare p.dataSeq (f.pre p).tr.seq > 0 := hahead
+  simp [this]
 
 end Tins.SF
